@@ -55,6 +55,9 @@ def fault_plans(n):
         plans.append({'src': {str(b): 'value'}, 'fn': {str(a): 'filter'}})
     for j in range(n):
         plans.append({'fn': {str(j): 'stop'}})
+    for j in sorted({0, n - 1}):
+        plans.append({'fn': {str(j): 'index'}})
+        plans.append({'src': {str(j): 'key'}})
     if n >= 1:
         plans.append({'fn': {str(j): 'user' for j in range(n)}})
         plans.append({'src': {str(j): 'filter' for j in range(n)}})
